@@ -277,6 +277,10 @@ def register_dispatcher_contracts(spec, sort):
     wf = ["wf(self, 'Disp')"]
     q = E + 'EventDispatcher.'
 
+    # C04: (un)registration never touches the pending queue nor the flag - what was dispatched
+    # while disabled is released to whoever is registered at delivery time
+    PENDING = ('self._event_queue == old(self._event_queue) and '
+               'self._dispatch_enabled == old(self._dispatch_enabled)')
     C(q + '__init__', params=dict(self=S), props=['C03'],
       modifies=['self._events', 'self._handlers', 'self._event_queue'],
       ensures={'init-wf': ("wf(self, 'Disp')", 'prop'),
@@ -284,11 +288,12 @@ def register_dispatcher_contracts(spec, sort):
                         'all(not (n in self._events) for n in Str) and '
                         'all(not (r in self._handlers) for r in Ref)'})
 
-    C(q + 'add_handler', params=dict(self=S, handler=Handler), props=['C03', 'C10'],
+    C(q + 'add_handler', params=dict(self=S, handler=Handler), props=['C03', 'C04', 'C10'],
       requires=wf + ['alive(handler)'],
       modifies=['self._events', 'self._handlers'],
       ensures={
           'wf': ("wf(self, 'Disp')", 'prop'),
+          'pending-events-stay-pending': PENDING,
           'registered': 'wref(handler) in self._handlers',
           'others-unchanged': 'all(implies(r != wref(handler), (r in self._handlers) == '
                               '(r in old(self._handlers))) for r in Ref)',
@@ -300,10 +305,11 @@ def register_dispatcher_contracts(spec, sort):
       ensures={'reports-registration': 'result == (wref(handler) in self._handlers)'},
       raises={'AssertionError': {'not-a-handler': 'not has_events(typeof(handler)) or handler == None'}})
 
-    C(q + '_remove_weak_handler', params=dict(self=S, handler_ref=Ref), props=['C03', 'C10'],
+    C(q + '_remove_weak_handler', params=dict(self=S, handler_ref=Ref), props=['C03', 'C04', 'C10'],
       requires=wf, modifies=['self._events', 'self._handlers'],
       ensures={
           'wf': ("wf(self, 'Disp')", 'prop'),
+          'pending-events-stay-pending': PENDING,
           'unregistered': 'not (handler_ref in self._handlers)',
           'gone-from-every-event': 'all(not (n in self._events and rm(handler_ref, m) in '
                                    'self._events[n]) for n in Str for m in Method)',
@@ -314,10 +320,11 @@ def register_dispatcher_contracts(spec, sort):
                                  '(x in old(self._events)[n])) for n in Str for x in RM)',
       })
 
-    C(q + 'remove_handler', params=dict(self=S, handler=Handler), props=['C03'],
+    C(q + 'remove_handler', params=dict(self=S, handler=Handler), props=['C03', 'C04'],
       requires=wf, modifies=['self._events', 'self._handlers'],
       ensures={
           'wf': ("wf(self, 'Disp')", 'prop'),
+          'pending-events-stay-pending': PENDING,
           'unregistered': 'not (wref(handler) in self._handlers)',
           'others-unchanged': 'all(implies(r != wref(handler), (r in self._handlers) == '
                               '(r in old(self._handlers))) for r in Ref)',
